@@ -48,9 +48,11 @@ def C17_statement : Prop :=
 
 /-! ### proofs -/
 
-/-- **close_terminates_clients** (threaded, pool, one-shot): for every op sequence, `close()` returns, the
-listener is closed, and every client that ever connected — served, waiting in the listen queue, or already gone —
-is terminated: end-of-stream for the client, descriptor released, untracked, hook run once -/
+/-- **close_terminates_clients** (threaded, pool, one-shot): for every op sequence of the statement's alphabet (`Op.c17`:
+in it no pool worker is ever blocked and no hook blocks - for states with workers blocked in reads see
+`pool_close_ends_blocked_clients`, for blocking hooks `close_passes_client_inside_disconnect_hook` and `closeWaits`),
+`close()` returns, the listener is closed, and every client that ever connected — served, waiting in the listen queue,
+or already gone — is terminated: end-of-stream for the client, descriptor released, untracked, hook run once -/
 theorem close_terminates_clients (cfg : Cfg) (hw : Wf cfg) (hk : cfg.kind ≠ .forking) : CloseTerminates cfg := by
   intro s hr
   obtain ⟨s', hs'⟩ := close_succeeds hw hr
